@@ -542,9 +542,14 @@ class X12LoopDataNode(X12DataNode):
         """
         ret = X12LoopDataNode(self.x12_map_node)
         ret.end_loops = list(self.end_loops)
-        ret.parent = self.parent
+        # The copy is detached: it must not reach the original tree through '../'
+        ret.parent = None
         for child in self.children:
-            ret.children.append(child.copy())
+            if child.type is None:
+                continue  # deleted node, not yet swept
+            child_copy = child.copy()
+            child_copy.parent = ret
+            ret.children.append(child_copy)
         return ret
 
     @property
@@ -711,7 +716,7 @@ class X12SegmentDataNode(X12DataNode):
         Returns a copy of this node
         """
         seg_data = self.seg_data.copy()
-        ret = X12SegmentDataNode(self.x12_map_node, seg_data, self.parent)
+        ret = X12SegmentDataNode(self.x12_map_node, seg_data, None)
         ret.start_loops = list(self.start_loops)
         ret.end_loops = list(self.end_loops)
         return ret
